@@ -145,6 +145,7 @@ mutual
     | .cell _ => true
     | .date _ => true
     | .tdelta _ => true
+    | .cdelta _ => true
     | .nat => true
     | .list xs => EVal.labelsOkList xs
     | .tuple xs => EVal.labelsOkList xs
@@ -196,6 +197,7 @@ theorem eqN_refl_aux : ∀ n, ∀ a : EVal, sizeOf a ≤ n → eqN a a = true :=
     case cell c => exact cellEq_refl c
     case date d => simp
     case tdelta d => simp
+    case cdelta d => simp
     case list xs => simp at h; exact hlist xs (by omega)
     case tuple xs => simp at h; exact hlist xs (by omega)
     case arr s xs => simp at h; exact ⟨by simp, hlist xs (by omega)⟩
@@ -235,6 +237,7 @@ theorem eqN_symm_aux : ∀ n, ∀ a b : EVal, sizeOf a ≤ n → eqN a b = eqN b
     case cell.cell x y => exact cellEq_symm x y
     case date.date x y => exact Bool.beq_comm
     case tdelta.tdelta x y => exact Bool.beq_comm
+    case cdelta.cdelta x y => exact Bool.beq_comm
     case list.list xs ys => simp at h; exact hlist xs ys (by omega)
     case tuple.tuple xs ys => simp at h; exact hlist xs ys (by omega)
     case arr.arr s xs t ys =>
@@ -278,6 +281,7 @@ theorem eqN_trans_aux : ∀ n, ∀ a b c : EVal, sizeOf a ≤ n →
     case cell.cell.cell x y z => exact cellEq_trans x y z hab hbc
     case date.date.date x y z => simp at hab hbc ⊢; omega
     case tdelta.tdelta.tdelta x y z => simp at hab hbc ⊢; omega
+    case cdelta.cdelta.cdelta x y z => simp at hab hbc ⊢; omega
     case list.list.list xs ys zs => simp at h; exact hlist xs ys zs (by omega) hab hbc
     case tuple.tuple.tuple xs ys zs => simp at h; exact hlist xs ys zs (by omega) hab hbc
     case arr.arr.arr s xs t ys u zs =>
@@ -356,6 +360,7 @@ mutual
     | .cell _, _ => rfl
     | .date _, _ => rfl
     | .tdelta _, _ => rfl
+    | .cdelta _, _ => rfl
     | .nat, _ => rfl
     | .list xs, h => by
         simp only [EVal.norm, EVal.labelsOk] at h ⊢; exact normList_labelsOk xs h
@@ -394,6 +399,7 @@ def EVal.kind : EVal → Nat × Nat
   | .cell _ => (0, 0)
   | .date _ => (0, 0)
   | .tdelta _ => (0, 0)
+  | .cdelta _ => (0, 0)
   | .nat => (0, 0)
   | .list _ => (1, 0)
   | .tuple _ => (2, 0)
